@@ -13,9 +13,9 @@ pub const DIRS: [&str; 3] = ["", "sub", "sub/deep"];
 pub const SHAPES: [&str; 3] = ["a.txt.txtpp", "b.txtpp.txt", "c.txtpp"];
 pub const DOTTED: [&str; 3] = ["g.h.i.txtpp", "g2.h.txtpp.i", "g3.h.txtpp"];
 pub const LOOKALIKES: [&str; 6] = ["txtpp", ".txtpp", ".txtpp.x", "d.txtpp.b.c", "e.txt", "F.TXTPP"];
-pub const SPELLINGS: [&str; 19] = [
+pub const SPELLINGS: [&str; 21] = [
     "a.txtpp.txt", "sub/b.txt.txtpp", "sub/", "./", ".", "sub", "sub/deep", "./sub/..", "a.txt", "a.txt.txtpp", "./a.txt", "sub/../a.txt", "ABS:a.txt", "sub/b.txt", "sub/deep/c", "missing.txt",
-    "missing.txtpp", "e.txt", "txtpp",
+    "missing.txtpp", "e.txt", "txtpp", "subx", "sub/deeper/",
 ];
 
 fn join(d: &str, n: &str) -> String {
@@ -54,6 +54,9 @@ impl TreeSpec {
         if self.dirlike {
             v.push("conf.txtpp.d/a.txt.txtpp".to_string());
             v.push("sub/tpl.txtpp/c.txtpp".to_string());
+            // sibling directories whose names have another directory's name as a string prefix
+            v.push("subx/a.txt.txtpp".to_string());
+            v.push("sub/deeper/b.txtpp.txt".to_string());
         }
         v
     }
@@ -375,7 +378,7 @@ pub fn run_c11(tier: &str) -> i32 {
     let lists1 = input_lists(1);
     rep.set("trees", json!(specs.len()));
     rep.set("input_lists", json!(lists.len()));
-    rep.set("bounds", json!(format!("{} trees (3 directory levels x subsets of 3 source-name shapes, look-alikes in every directory, dotted-stem and include variants) x input lists of length <= 2 (other modes: 1) [{}] over 19 spellings x recursive on/off x build/needed/verify/clean x base absolute/relative", specs.len(), if thorough { 2 } else { 1 })));
+    rep.set("bounds", json!(format!("{} trees (3 directory levels x subsets of 3 source-name shapes, look-alikes in every directory, dotted-stem and include variants) x input lists of length <= 2 (other modes: 1) [{}] over 21 spellings x recursive on/off x build/needed/verify/clean x base absolute/relative", specs.len(), if thorough { 2 } else { 1 })));
     rep.assume("the reference set-of-sources function (harness/src/etree.rs: expected_set) is written from the property statement");
     rep.st(specs.len());
     sharded_dyn(&rep, par_threads(), |_k, _n, next, rep| {
@@ -402,8 +405,8 @@ pub fn run_c11(tier: &str) -> i32 {
                     check_case(rep, &env, spec, l, rec, &Mode::Verify, false);
                     rep.tr(4);
                 }
-                if thorough && (i % 8 == 7 || spec.dotted || spec.include_variant) {
-                    for l in lists.iter().skip(19) {
+                if thorough && (i % 8 == 7 || spec.dotted || spec.include_variant || spec.dirlike) {
+                    for l in lists.iter().skip(SPELLINGS.len()) {
                         check_case(rep, &env, spec, l, rec, &Mode::Clean, false);
                         rep.tr(1);
                     }
